@@ -1075,6 +1075,38 @@ def rule_G6(ctx, rule: str = "G6") -> None:
                     "an exceptional exit of the response loop leaves the sending task running", "server fails mid-stream while the request channel is still open")
 
 
+def rule_A13(ctx, rule: str = "A13") -> None:
+    """a receiver's wait on the queue is its own: every `queue.get()` of the channel is the direct operand of `await` - handed to
+    shield / ensure_future / create_task / gather / wait the getter becomes a task of its own that outlives a receiver that is
+    cancelled or times out, and swallows the next item that is sent"""
+    mod = ctx.repo.mod(M_CHANNEL)
+    n = 0
+    bad = None
+    for mname, fns0 in mod.methods(CLS).items():
+        for k_ in range(len(fns0)):
+            fn = mod.func(f"{CLS}.{mname}", k_)
+            awaited = {id(x.value) for x in ast.walk(fn) if isinstance(x, ast.Await)}
+            qnames = {st.targets[0].id for st in ast.walk(fn) if isinstance(st, ast.Assign) and len(st.targets) == 1 and isinstance(st.targets[0], ast.Name)
+                      and isinstance(st.value, ast.Attribute) and st.value.attr == "_queue"}
+            for c in ast.walk(fn):
+                if isinstance(c, ast.Call) and isinstance(c.func, ast.Attribute) and c.func.attr == "get" and not c.args and (
+                        "_queue" in ast.unparse(c.func.value) or (isinstance(c.func.value, ast.Name) and c.func.value.id in qnames)):
+                    n += 1
+                    if id(c) not in awaited:
+                        outer = next((ast.unparse(o.func) for o in ast.walk(fn) if isinstance(o, ast.Call) and o is not c and any(x is c for x in ast.walk(o))), None)
+                        bad = bad or (mname, c, outer)
+    ctx.count(n)
+    ctx.floor(rule, "queue gets", n, 2)
+    if bad:
+        m, c, outer = bad
+        ctx.refuted(rule, "queue-gets-awaited-directly", f"{m}:{outer}", mod.loc(c),
+                    f"{m}() hands `{ast.unparse(c)}` to {outer or 'something other than await'}: the pending get then lives on as a task of its own when the receiver is cancelled or "
+                    "times out, and takes the next item sent - which no receiver ever sees",
+                    "r = create_task(ch.receive()); r.cancel(); await ch.send(1); await ch.receive()  # never returns 1")
+    else:
+        ctx.proved(rule, "queue-gets-awaited-directly", mod.rel, f"{n} gets, each awaited by the receiver itself")
+
+
 def rule_A12(ctx) -> None:
     """a cancellation (or timeout) delivered to a method of the channel while it waits surfaces to the caller: every handler
     that can catch asyncio.CancelledError / TimeoutError (by name, through BaseException, or a bare except) raises on each of its
@@ -1120,7 +1152,7 @@ def rule_A12(ctx) -> None:
 
 
 def run(ctx) -> None:
-    for name, fn in (("A12", rule_A12), ("A1", rule_A1), ("A2", rule_A2), ("A3", rule_A3), ("A4", rule_A4), ("A5", rule_A5), ("A6", rule_A6),
+    for name, fn in (("A12", rule_A12), ("A13", rule_A13), ("A1", rule_A1), ("A2", rule_A2), ("A3", rule_A3), ("A4", rule_A4), ("A5", rule_A5), ("A6", rule_A6),
                      ("A8", rule_A8), ("A9", rule_A9), ("A10", rule_A10), ("A11", rule_A11), ("G6", lambda c: rule_G6(c, "A7"))):
         ctx.rules_run.append(name)
         fn(ctx)
